@@ -363,6 +363,14 @@ def registry(ctx: Ctx):
 
 
 def forwarding(ctx: Ctx):
+    step_forwarding(ctx)
+    own_distribution_decoders(ctx)
+    dispatch_rules(ctx)
+    own_loops_select_through_the_shared_selector(ctx)
+    start_sampler_draws_feasible_actions(ctx)
+
+
+def step_forwarding(ctx: Ctx, rid: str = "C10.d"):
     cls = ctx.repo.get_class(DEC, "DecodingStrategy")
     fi = cls.methods["step"]
     ctx.fn(fi)
@@ -375,7 +383,7 @@ def forwarding(ctx: Ctx):
         want = {"temperature", "top_p", "top_k", "tanh_clipping", "mask_logits"}
         ok = pos[:2] == ["logits", "mask"] and set(kws) == want and all(kws[k] == f"self.{k}" for k in want)
         why = f"process_logits({', '.join(pos)}, " + ", ".join(f"{k}={v}" for k, v in sorted(kws.items())) + ")"
-    ctx.ob("C10.d", "DecodingStrategy.step:forwarding", ok, fi.loc, why, construct="DecodingStrategy.step:process_logits-args")
+    ctx.ob(rid, "DecodingStrategy.step:forwarding", ok, fi.loc, why, construct="DecodingStrategy.step:process_logits-args")
     # mask only dropped when mask_logits is off
     it = vg.Interp(ctx.repo, cls, inline_policy=lambda f, a: False)
     fr = it.run_function(fi)
@@ -384,11 +392,7 @@ def forwarding(ctx: Ctx):
     if pl:
         m = pl[0].args[2]
         okm = m.op in ("phi", "ifexp") and "mask_logits" in vg.selfattrs_of(m.args[0]) and any(a.op == "param" and a.args[0] == "mask" for a in m.args[1:]) and any(vg.is_const(a) and a.args[0] is None for a in m.args[1:])
-    ctx.ob("C10.d", "DecodingStrategy.step:mask-passed", okm, fi.loc, "mask is replaced by None only under `not self.mask_logits`", construct="DecodingStrategy.step:mask")
-    own_distribution_decoders(ctx)
-    dispatch_rules(ctx)
-    own_loops_select_through_the_shared_selector(ctx)
-    start_sampler_draws_feasible_actions(ctx)
+    ctx.ob(rid, "DecodingStrategy.step:mask-passed", okm, fi.loc, "mask is replaced by None only under `not self.mask_logits`", construct="DecodingStrategy.step:mask")
 
 
 OWN_LOOPS = [("rl4co/models/zoo/eas/decoder.py", "forward_eas"), ("rl4co/models/zoo/ptrnet/decoder.py", "Decoder.forward"),
